@@ -131,6 +131,8 @@ fn generate(rng: &mut Rng) -> C17Sc {
             // sometimes the listener (and then the tasks it spawned, and so on) get to run between the connects of the
             // stop's instant and the stop call
             yields_before_stop: *rng.pick(&[0u8, 0, 0, 1, 1, 2, 3]),
+            // (the same listener value may have been run before: started and stopped while idle)
+            relisten: !use_start && rng.chance(1, 5),
             cap_ns: 3 * secs(timeout_s) + secs(60),
         },
     }
